@@ -716,7 +716,11 @@ enum Triage {
 
 /// Does running `worlds` in a fresh process show a violation with `key` (or, for ABORT, die)?
 fn reproduces(prop: &str, class: &str, key: &str, worlds: &[World]) -> Result<bool, String> {
-    match run_worlds_fresh(prop, worlds, if class == "HANGWALL" { 200 } else { 60 }) {
+    reproduces_w(prop, class, key, worlds, if class == "HANGWALL" { 200 } else { 60 })
+}
+
+fn reproduces_w(prop: &str, class: &str, key: &str, worlds: &[World], wall_s: u64) -> Result<bool, String> {
+    match run_worlds_fresh(prop, worlds, wall_s) {
         Ok((vs, _)) => Ok(vs.iter().any(|v| v.key == key)),
         Err((status, diag)) => {
             if status == "harness" {
@@ -777,13 +781,17 @@ fn minimise(v: &VMsg) -> Vec<World> {
     let class = v.class.as_str();
     let key = v.key.as_str();
     let mut best: Vec<World> = v.worlds.clone();
-    let mut budget: u32 = 300;
+    // a wall-clock hang costs its whole budget per test: few tests, short budget (the final
+    // confirmation of the minimised worlds uses the full 200 s again)
+    let hangwall = class == "HANGWALL";
+    let mut budget: u32 = if hangwall { 24 } else { 300 };
+    let wall_s: u64 = if hangwall { 12 } else { 60 };
     let mut try_it = |cand: &Vec<World>, best: &mut Vec<World>, budget: &mut u32| -> bool {
         if *budget == 0 {
             return false;
         }
         *budget -= 1;
-        if matches!(reproduces(prop, class, key, cand), Ok(true)) {
+        if matches!(reproduces_w(prop, class, key, cand, wall_s), Ok(true)) {
             *best = cand.clone();
             true
         } else {
@@ -901,7 +909,7 @@ fn minimise(v: &VMsg) -> Vec<World> {
                     let joined: Vec<u8> = cand.concat();
                     let mut c = snapshot.clone();
                     set_source_for_key(&mut c, kk, &joined);
-                    matches!(reproduces(prop, class, key, &c), Ok(true))
+                    matches!(reproduces_w(prop, class, key, &c, wall_s), Ok(true))
                 },
                 &mut local_budget,
             );
@@ -910,7 +918,7 @@ fn minimise(v: &VMsg) -> Vec<World> {
             if joined.len() < cur_src.len() {
                 let mut c = best.clone();
                 set_source_for_key(&mut c, cur_key, &joined);
-                if matches!(reproduces(prop, class, key, &c), Ok(true)) {
+                if matches!(reproduces_w(prop, class, key, &c, wall_s), Ok(true)) {
                     best = c;
                     cur_src = joined;
                     cur_key = best.iter().flat_map(|w| w.jobs.iter()).find(|j| j.source.0 == cur_src).map(|j| j.key()).unwrap_or(cur_key);
